@@ -15,6 +15,7 @@
    key_flag (always false), HEARTBEAT submessages inside the writer's datagrams (the
    harness feeds heartbeats explicitly), i32 wrap of the ACKNACK count. *)
 From DustDDS Require Export Base.Machine.
+From Coq Require Export Sorted.
 Open Scope Z_scope.
 
 Definition bytes := list Z.
@@ -432,5 +433,49 @@ Definition op_ok (o : op) : Prop :=
   | ODeliver _ _ which => which = 1
   | OForeign _ => False
   | OForged _ _ base set => 0 <= base /\ Forall (fun k => 0 <= k) set
+  | _ => True
+  end.
+
+(* ---- vocabulary of the reassembly theorems *)
+
+(* fragment sizes and payload lengths that fit the u16 / u32 wire fields *)
+Definition frag_size_ok (f : Z) : Prop := 0 < f < 65536.
+Definition payload_ok (p : bytes) : Prop := blen p < two32.
+
+(* a DATA_FRAG the writer (fragment size f, history ch) really produced for reader rid *)
+Definition genuine (f rid : Z) (ch : list (Z * bytes)) (fr : frag) : Prop :=
+  exists p i, lookup (fr_sn fr) ch = Some p /\ 0 <= i < div_ceil (blen p) f /\
+              fr = mk_data_frag rid (fr_sn fr) p f i.
+
+Definition history_ok (ch : list (Z * bytes)) : Prop :=
+  forall sn p, lookup sn ch = Some p -> payload_ok p.
+
+(* every fragment of sample (sn, p) is in the buffer *)
+Definition complete (f rid : Z) (buf : list frag) (sn : Z) (p : bytes) : Prop :=
+  forall i, 0 <= i < div_ceil (blen p) f -> In (mk_data_frag rid sn p f i) buf.
+
+(* what a reader state may contain, relative to the writer's history ch: distinct genuine fragments,
+   and changes that carry the written payloads with increasing sequence numbers *)
+Record rinv (f : Z) (ch : list (Z * bytes)) (r : rstate) : Prop := mkrinv {
+  ri_nodup : NoDup (r_buf r);
+  ri_genuine : forall x, In x (r_buf r) -> genuine f 1 ch x;
+  ri_changes : Forall (fun c => lookup (fst c) ch = Some (snd c) /\ fst c <= r_highest r) (r_changes r);
+  ri_sorted : StronglySorted Z.lt (map fst (r_changes r))
+}.
+
+(* genuine data-carrying submessages of the writer towards reader 1 *)
+Definition wire_genuine (f : Z) (ch : list (Z * bytes)) (w : wire) : Prop :=
+  match w with
+  | WData _ sn p => lookup sn ch = Some p
+  | WFrag fr => genuine f 1 ch fr
+  | WGap _ => True
+  end.
+
+(* continuations in which fragment j (0-based) of sample sn stays lost: its datagram is never
+   delivered and nobody forges NACK_FRAGs (the reader's own ones are used) *)
+Definition lost_op (sn j : Z) (o : op) : Prop :=
+  match o with
+  | ODeliver sn' idx _ => ~ (sn' = sn /\ idx = j)
+  | OForged _ _ _ _ => False
   | _ => True
   end.
